@@ -377,7 +377,7 @@ CHECKS = {
         "level": "exploration",
         "proc_timeout": "60m",
         "gomaxprocs": 2,
-        "quick": {"procs": 32, "checks_per_proc": 12},
+        "quick": {"procs": 32, "checks_per_proc": 16},
         "thorough": {"procs": 64, "checks_per_proc": 500},
         "rule": "one case = a fresh real service (TestingService on an in-memory mocknet) receiving a seeded session of 1-25 steps: any "
                 "method of the protocol service interface (found by reflection; 2 methods needing an external HTTP issuer excluded) "
